@@ -220,6 +220,7 @@ structure DotFacts where
   edges : List DEdge := []            -- arcs `a -> b [label=…]`
   termEdges : List Nat := []          -- `a -> terminal`
   bad : List String := []             -- anything the property does not allow
+  clusterIds : List Nat := []         -- ids mentioned inside cluster bodies (in DOT a mention declares the node)
 
 def DotFacts.err (f : DotFacts) (m : String) : DotFacts := { f with bad := m :: f.bad }
 
@@ -248,7 +249,8 @@ def collect : List Stmt → DotFacts → DotFacts
         | some a, some b, some (x, v, k) => { f with edges := ⟨a, b, x, v, k⟩ :: f.edges }
         | _, _, _ => f.err s!"unreadable edge {a} -> {b}"
       | .sub name body =>
-        if name.startsWith "cluster_" && clusterBodyOk body then f
+        if name.startsWith "cluster_" && clusterBodyOk body then
+          { f with clusterIds := (body.filterMap (fun st => match st with | .mention a => a.toNat? | _ => none)) ++ f.clusterIds }
         else f.err s!"unexpected subgraph {name}"
     collect r f
 
@@ -274,6 +276,8 @@ def phiViz (d : Dump) (c : VizCfg) (dot : String) : Option String :=
         (fun i => s!"node {i} is not hidden but is declared {f.decls.count i} times"),
       (f.decls.find? (fun i => !visIds.contains i)).map
         (fun i => s!"declared node {i} is hidden by the configuration or does not exist"),
+      (f.clusterIds.find? (fun i => !visIds.contains i)).map
+        (fun i => s!"node {i} is hidden by the configuration (or does not exist) but is listed in a cluster, which makes it appear"),
       -- edges: drawn ⊆ arcs of the dump between existing nodes
       (f.edges.find? (fun e => !(allIds.contains e.src && allIds.contains e.dst))).map
         (fun e => s!"edge {e.src} -> {e.dst} connects a node that does not exist"),
